@@ -20,9 +20,10 @@
 #define ARCH_SET_CPUID 0x1012
 #endif
 
-enum { M_HOST = 0, M_NO_AVX2, M_NO_OSXSAVE, M_NO_AVX, M_MAXLEAF6, M_NO_SSE2, M_XCR0_NO_YMM, M_XCR0_X87_ONLY, M_SSE2_ONLY, M_N };
+enum { M_HOST = 0, M_NO_AVX2, M_NO_OSXSAVE, M_NO_AVX, M_MAXLEAF6, M_NO_SSE2, M_XCR0_NO_YMM, M_XCR0_X87_ONLY, M_SSE2_ONLY, M_LEAF7_EAX0, M_OTHER_VENDOR, M_N };
 static const char *const mname[M_N] = {"host-truth", "no-AVX2-bit", "AVX2-bit-without-OSXSAVE", "AVX2-bit-without-AVX-bit", "max-leaf-6-intel-semantics-adversarial-EBX", "no-SSE2",
-                                        "OS-did-not-enable-YMM-state(XCR0=3,single-stepped)", "OS-enabled-x87-state-only(XCR0=1,single-stepped)", "SSE2-only-cpu(K8-class:max-leaf-1,no-SSE3/SSSE3/SSE4/POPCNT/XSAVE/AVX)"};
+                                        "OS-did-not-enable-YMM-state(XCR0=3,single-stepped)", "OS-enabled-x87-state-only(XCR0=1,single-stepped)", "SSE2-only-cpu(K8-class:max-leaf-1,no-SSE3/SSSE3/SSE4/POPCNT/XSAVE/AVX)",
+                                        "AVX2-cpu-whose-leaf7-has-only-sub-leaf-0(EAX=0)", "same-features-other-vendor-string-and-max-leaf-0x20"};
 
 static volatile int g_model = M_HOST;
 static volatile int g_trapping = 0;
@@ -46,6 +47,12 @@ static void model_cpuid(int model, uint32_t leaf, uint32_t sub, uint32_t o[4])
     case M_MAXLEAF6:
         if (leaf == 0) o[0] = 6;
         else if (leaf > 6 && leaf < 0x40000000u) { real_cpuid(6, sub, o); o[1] |= (1u << 5); }   /* Intel: data of the highest basic leaf; EBX adversarial */
+        break;
+    case M_LEAF7_EAX0:         /* Haswell..Ice Lake, Zen 1-3: leaf 7 reports no further sub-leaves; sub-leaves above 0 read as zero */
+        if (leaf == 7) { if (sub == 0) o[0] = 0; else o[0] = o[1] = o[2] = o[3] = 0; }
+        break;
+    case M_OTHER_VENDOR:       /* feature bits as the host, but another vendor string and a larger maximum basic leaf */
+        if (leaf == 0) { o[0] = 0x20; if (o[1] == 0x756e6547) { o[1] = 0x68747541; o[3] = 0x69746e65; o[2] = 0x444d4163; } else { o[1] = 0x756e6547; o[3] = 0x49656e69; o[2] = 0x6c65746e; } }
         break;
     case M_SSE2_ONLY:
         if (leaf == 0) o[0] = 1;
